@@ -1638,7 +1638,7 @@ fn pick_bound(d: &mut Dna, gens: &Generics, custom: impl Fn() -> Vec<String>, al
 fn expr_ty_caps(ty: &str) -> u16 {
     use crate::spec::caps::*;
     match ty {
-        "f32" | "f64" => DEBUG | CLONE | COPY | PEQ | PORD | DEFAULT | KEY | CONSTVAL,
+        "f32" | "f64" | "AliasF64" => DEBUG | CLONE | COPY | PEQ | PORD | DEFAULT | KEY | CONSTVAL,
         "String" => ALL & !COPY,
         "&'static [u8; 2]" => (ALL & !DEFAULT & !KEY) | CONSTVAL,
         _ => ALL | CONSTVAL,
